@@ -346,7 +346,19 @@ func HarnessC03_symlink() {
 // (C08 clause; any hang or stack overflow is caught by the engine's budgets).
 func HarnessC03_cycle() {
 	vfsReset()
-	switch ndChoice(3) {
+	switch ndChoice(6) {
+	case 3: // a cycle below the entry file: x -> y -> z -> y
+		vfsAddFile("x.yaml", map[string]any{"$parent": "y", "a": 1})
+		vfsAddFile("y.json", map[string]any{"$parent": "z", "b": 1})
+		vfsAddFile("z.toml", map[string]any{"$parent": "y", "c": 1})
+	case 4: // deeper: x -> y -> z -> w -> z
+		vfsAddFile("x.yaml", map[string]any{"$parent": "y", "a": 1})
+		vfsAddFile("y.json", map[string]any{"$parent": "z", "b": 1})
+		vfsAddFile("z.toml", map[string]any{"$parent": "w", "c": 1})
+		vfsAddFile("w.yaml", map[string]any{"$parent": []any{"z"}, "d": 1})
+	case 5: // a self-parent below the entry: x -> y -> y
+		vfsAddFile("x.yaml", map[string]any{"$parent": "y", "a": 1})
+		vfsAddFile("y.json", map[string]any{"$parent": "y", "b": 1})
 	case 0:
 		vfsAddFile("x.yaml", map[string]any{"$parent": "x", "a": 1})
 	case 1:
